@@ -194,7 +194,16 @@ pub fn run_http_status(sim: &Sim, idx: u64) {
     }
     let with_body = sim.chance(1, 2);
     if with_body {
-        let body: Vec<u8> = if sim.chance(1, 2) { indep::frame(0, b"x") } else { vec![] };
+        // a gRPC frame, nothing, or what a proxy really sends with an error status: text / HTML
+        let body: Vec<u8> = match sim.draw(4) {
+            0 => indep::frame(0, b"x"),
+            1 => vec![],
+            2 => b"oops".to_vec(),
+            _ => b"<html><body><h1>502 Bad Gateway</h1></body></html>\r\n".to_vec(),
+        };
+        if !body.is_empty() && body[0] != 0 {
+            sim.probe("http-error-with-non-grpc-body");
+        }
         script.body = cut_bytes(sim, &body, &[0]).into_iter().map(Ev::Data).collect();
     }
     if sim.chance(1, 3) {
@@ -258,7 +267,7 @@ pub fn run_reset(sim: &Sim, idx: u64) {
     };
     let Some(out) = call(sim, &peer, streaming) else { return };
     match out {
-        Outcome::Ok(n) => v4(sim, "reset-read-as-success", format!("stream reset with reason {reason}: caller sees success ({n} items)")),
+        Outcome::Ok(n) => v4(sim, &format!("reset-read-as-success-reason-{reason}"), format!("stream reset with reason {reason}: caller sees success ({n} items)")),
         Outcome::Err(c, m, _, _) => {
             if let Some(w) = want {
                 if c != w {
